@@ -430,7 +430,8 @@ def ini_rules(ck, fn):
             site = g.site_of(mv[0])
             o = skip_copies(mv[0].get("obj"))
             src = deref_local(fn, o)
-            okc = isinstance(src, dict) and src.get("k") == "cast" and "Dynamic" in (src.get("ck") or "") and is_ref_to(src.get("e"), fn.params[0]["decl"])
+            okc = isinstance(src, dict) and src.get("k") == "cast" and "Dynamic" in (src.get("ck") or "") and \
+                (is_ref_to(src.get("e"), fn.params[0]["decl"]) or is_ref_to(skip_copies(deref_local(fn, src.get("e"))), fn.params[0]["decl"]))
             isptr = (lambda n, d=o.get("decl"): n.get("k") == "ref" and n.get("decl") == d) if o.get("k") == "ref" else (lambda n: False)
             res = {}
             for a in (False, True):
